@@ -14,7 +14,17 @@ import (
 	zz "github.com/haqq-network/haqq/zzverif"
 )
 
+// the denomination universe; with the harness parameter prefix=1 the two denominations are string-prefix related
+// (aLIQUID1 / aLIQUID10), which is what store keys built from raw denominations are sensitive to
 var c12Denoms = []string{"aISLM", "aLIQUID1"}
+
+func c12PickDenoms() {
+	if zz.ParamInt("prefix", 0) == 1 {
+		c12Denoms = []string{"aLIQUID1", "aLIQUID10"}
+	} else {
+		c12Denoms = []string{"aISLM", "aLIQUID1"}
+	}
+}
 
 func c12Addr(i int) sdk.AccAddress {
 	b := make([]byte, 20)
@@ -84,6 +94,7 @@ type c12State struct {
 
 // c12Setup writes an arbitrary ledger satisfying the invariant through the keeper's own setters.
 func c12Setup() *c12State {
+	c12PickDenoms()
 	env := zz.NewEnv([]string{"ucdao"}, nil)
 	bank := &c12Bank{acc: map[string]map[string]sdkmath.Int{}, module: map[string]sdkmath.Int{}}
 	k := BaseKeeper{cdc: zz.Codec(), storeKey: env.Key("ucdao"), bk: bank}
@@ -154,17 +165,17 @@ func c12Copy(b [][]sdkmath.Int) [][]sdkmath.Int {
 func c12AnyRawCoins(tag string) sdk.Coins {
 	switch zz.Choose(tag+".shape", 6) {
 	case 4: // the same denomination twice (not a valid Coins value; only a hand-built message can carry it)
-		return sdk.Coins{sdk.Coin{Denom: "aISLM", Amount: zz.AnySdkInt(tag + ".aISLM")}, sdk.Coin{Denom: "aISLM", Amount: zz.AnySdkInt(tag + ".aISLM2")}}
+		return sdk.Coins{sdk.Coin{Denom: c12Denoms[0], Amount: zz.AnySdkInt(tag + "." + c12Denoms[0])}, sdk.Coin{Denom: c12Denoms[0], Amount: zz.AnySdkInt(tag + "." + c12Denoms[0] + "2")}}
 	case 5: // unsorted
-		return sdk.Coins{sdk.Coin{Denom: "aLIQUID1", Amount: zz.AnySdkInt(tag + ".aLIQUID1")}, sdk.Coin{Denom: "aISLM", Amount: zz.AnySdkInt(tag + ".aISLM")}}
+		return sdk.Coins{sdk.Coin{Denom: c12Denoms[1], Amount: zz.AnySdkInt(tag + "." + c12Denoms[1])}, sdk.Coin{Denom: c12Denoms[0], Amount: zz.AnySdkInt(tag + "." + c12Denoms[0])}}
 	case 0:
 		return sdk.Coins{}
 	case 1:
-		return sdk.Coins{sdk.Coin{Denom: "aISLM", Amount: zz.AnySdkInt(tag + ".aISLM")}}
+		return sdk.Coins{sdk.Coin{Denom: c12Denoms[0], Amount: zz.AnySdkInt(tag + "." + c12Denoms[0])}}
 	case 2:
-		return sdk.Coins{sdk.Coin{Denom: "aLIQUID1", Amount: zz.AnySdkInt(tag + ".aLIQUID1")}}
+		return sdk.Coins{sdk.Coin{Denom: c12Denoms[1], Amount: zz.AnySdkInt(tag + "." + c12Denoms[1])}}
 	}
-	return sdk.Coins{sdk.Coin{Denom: "aISLM", Amount: zz.AnySdkInt(tag + ".aISLM")}, sdk.Coin{Denom: "aLIQUID1", Amount: zz.AnySdkInt(tag + ".aLIQUID1")}}
+	return sdk.Coins{sdk.Coin{Denom: c12Denoms[0], Amount: zz.AnySdkInt(tag + "." + c12Denoms[0])}, sdk.Coin{Denom: c12Denoms[1], Amount: zz.AnySdkInt(tag + "." + c12Denoms[1])}}
 }
 
 // VerifC12_Fund: a deposit credits the depositor with exactly the deposit and keeps the invariant.
@@ -173,7 +184,7 @@ func VerifC12_Fund() {
 	c12CheckInv(st, st.bal) // the constructed pre-state satisfies the invariant (sanity of the harness)
 	who := zz.Choose("depositor", st.n)
 	amt := c12AnyRawCoins("amount")
-	wallet0 := []sdkmath.Int{st.bank.get(c12Addr(who).String(), "aISLM"), st.bank.get(c12Addr(who).String(), "aLIQUID1")}
+	wallet0 := []sdkmath.Int{st.bank.get(c12Addr(who).String(), c12Denoms[0]), st.bank.get(c12Addr(who).String(), c12Denoms[1])}
 	srv := NewMsgServerImpl(st.k)
 	msg := &types.MsgFund{Depositor: c12Addr(who).String(), Amount: amt}
 	if msg.ValidateBasic() != nil { // stateless validation runs before any handler
@@ -227,7 +238,7 @@ func VerifC12_Transfer() {
 		if err == nil {
 			zz.Assert(amt.IsValid(), "an accepted amount is a well-formed coin list (sorted, unique denominations, positive)")
 		}
-		moved = []sdkmath.Int{amt.AmountOf("aISLM"), amt.AmountOf("aLIQUID1")}
+		moved = []sdkmath.Int{amt.AmountOf(c12Denoms[0]), amt.AmountOf(c12Denoms[1])}
 	}
 	if err != nil {
 		zz.Reach("rejected")
